@@ -139,10 +139,24 @@ def _from_cnfgen(exc):
     return last is not None and os.path.abspath(last) != here
 
 
+def _check_held(G, model):
+    """an edge listing obtained EARLIER (right after construction) is a view too: after every update it must still list what a
+    fresh edges() lists, and agree with its own len()"""
+    held = getattr(model, 'held', None)
+    if held is None:
+        return None
+    old, new = list(held), list(G.edges())
+    if old != new:
+        return ('edges-held', 'an edges() object obtained before the updates lists {} but a fresh one lists {}'.format(old, new))
+    if len(held) != len(old):
+        return ('edges-held', 'len() of an edges() object obtained before the updates is {} but it lists {} edges'.format(len(held), len(old)))
+    return None
+
+
 def check_views(G, model):
     """None or a (view, description) pair"""
     try:
-        return _check_views(G, model)
+        return _check_views(G, model) or _check_held(G, model)
     except Exception as e:  # noqa
         if _from_cnfgen(e):
             return ('view-raises', 'a view raised {}: {}'.format(type(e).__name__, e))
@@ -364,6 +378,7 @@ def run_history(cname, init, ops, networkx_too=True):
     init = tuple(init) if isinstance(init, (list, tuple)) else init
     G = _new(cname, init)
     model = Model(cname, init)
+    model.held = G.edges()
     bad = check_views(G, model)
     if bad:
         return ('{}:init:{}'.format(cname, bad[0]), 'new {}({}): {}'.format(cname, init, bad[1]))
@@ -573,6 +588,7 @@ def _plain(args):
     for _ in range(nrandom):
         G = _new(cname, init)
         model = Model(cname, init)
+        model.held = G.edges()
         ops = []
         for _ in range(rlen):
             al = alphabet(cname, model.n)
